@@ -579,6 +579,67 @@ theorem ws_accept_extra_clean (h : Ws.Handshake) (token : Bytes → Bytes) (ext 
     simp only [hx, pure, Except.pure] at hok
     (repeat' split at hok) <;> (try cases hok) <;> exact ⟨_, h5, rfl, hl, hc, hp, hs'⟩
 
+/-! ### the subprotocol an application names in `websocket.accept`
+
+It becomes the value of `sec-websocket-protocol` *without* passing `validate_header_part`; what keeps CR / LF / NUL (and any
+name the client did not ask for) off the wire is the guard of `Handshake.accept` alone.  The guard is regenerated from the
+source (`HC/Extracted/WsGuards.lean`, `subprotocolRefused`) and proved here to be the model's. -/
+
+/-- **the source's guard refuses exactly what the client did not offer** — no `Sec-WebSocket-Protocol` header at all
+    (`None`), or a list that does not contain the application's choice -/
+theorem ws_subprotocol_guard (offered : Option (List Bytes)) (p : Bytes) :
+    WsGuards.subprotocolRefused offered p = true ↔ ¬ ∃ l, offered = some l ∧ p ∈ l := by
+  cases offered with
+  | none => simp [WsGuards.subprotocolRefused]
+  | some l => by_cases hm : p ∈ l <;> simp [WsGuards.subprotocolRefused, hm]
+
+/-- the model's `Handshake.accept` takes the same decision as the source's guard, for every handshake (offering
+    subprotocols or not) and every choice of the application -/
+theorem ws_accept_guard_is_source (h : Ws.Handshake) (token : Bytes → Bytes) (ext : Option Bytes) (p : Bytes) :
+    (∃ r, h.accept token ext (some p) [] = .ok r) ↔ WsGuards.subprotocolRefused h.subprotocols p = false := by
+  have hg := ws_subprotocol_guard h.subprotocols p
+  unfold Ws.Handshake.accept
+  cases ho : h.subprotocols with
+  | none => simp [WsGuards.subprotocolRefused, bind, Except.bind, throw, throwThe, MonadExceptOf.throw]
+  | some l =>
+    by_cases hm : p ∈ l
+    · simp [WsGuards.subprotocolRefused, hm, bind, Except.bind, pure, Except.pure, Ws.validateExtra]
+    · simp [WsGuards.subprotocolRefused, hm, bind, Except.bind, throw, throwThe, MonadExceptOf.throw]
+
+/-- **an accepted `websocket.accept` names only a subprotocol the client offered**, and renders it first: a name the
+    client did not offer — in particular any name when the handshake carried no `Sec-WebSocket-Protocol` header — is
+    refused before anything is produced -/
+theorem ws_accept_subprotocol_offered (h : Ws.Handshake) (token : Bytes → Bytes) (ext : Option Bytes) (p : Bytes)
+    (extra : Headers) (st : Nat) (hs : Headers) (hok : h.accept token ext (some p) extra = .ok (st, hs)) :
+    (∃ l, h.subprotocols = some l ∧ p ∈ l) ∧ ∃ rest, hs = ("sec-websocket-protocol".b, p) :: rest := by
+  unfold Ws.Handshake.accept at hok
+  simp only [bind, Except.bind] at hok
+  cases ho : h.subprotocols with
+  | none => simp [ho, throw, throwThe, MonadExceptOf.throw] at hok
+  | some l =>
+    by_cases hm : p ∈ l
+    · refine ⟨⟨l, rfl, hm⟩, ?_⟩
+      simp only [ho, List.contains_iff_mem, hm, if_true, pure, Except.pure] at hok
+      cases hx : Ws.validateExtra extra with
+      | error e => simp [hx] at hok
+      | ok h5 =>
+        simp only [hx] at hok
+        (repeat' split at hok) <;> cases hok <;> exact ⟨_, rfl⟩
+    · simp [ho, hm, throw, throwThe, MonadExceptOf.throw] at hok
+
+/-- hence **no CR, LF or NUL of the application's subprotocol reaches the response head**: the value that is sent is one
+    of the tokens of the client's own (already framed) `Sec-WebSocket-Protocol` header -/
+theorem ws_accept_subprotocol_clean (h : Ws.Handshake) (token : Bytes → Bytes) (ext : Option Bytes) (p : Bytes)
+    (extra : Headers) (st : Nat) (hs : Headers)
+    (hreq : ∀ l, h.subprotocols = some l → ∀ t ∈ l, hasCtl t = false)
+    (hok : h.accept token ext (some p) extra = .ok (st, hs)) : hasCtl p = false := by
+  obtain ⟨⟨l, hl, hm⟩, _⟩ := ws_accept_subprotocol_offered h token ext p extra st hs hok
+  exact hreq l hl p hm
+
+example : (Ws.Handshake.accept { version := "2" } (fun _ => []) none (some "chat\r\nset-cookie: x".b) []) = .error .exception ∧
+    (Ws.Handshake.accept { version := "2", subprotocols := some ["chat".b] } (fun _ => []) none (some "chat".b) []) =
+      .ok (200, [("sec-websocket-protocol".b, "chat".b)]) := ⟨by rfl, by rfl⟩
+
 /-- non-vacuity: a concrete HTTP/2 state in which a late push, a second start and a body with a `str` payload are all
     rejected without effect, and a CR/LF header is refused before anything is emitted -/
 example :
